@@ -1781,6 +1781,29 @@ pub fn run_case_c(line: &str) -> String {
                         }
                     }
                 }
+                "disch" => {
+                    // the discharge through the public trait method: the handle stays with the application
+                    let k: usize = w[1].parse().unwrap();
+                    let fail = w[2] == "1";
+                    match txns.get_mut(k).and_then(|t| t.as_mut()) {
+                        None => "skip".into(),
+                        Some(t) => {
+                            sh.lock().unwrap().resp = Some(w[3].to_string());
+                            match t {
+                                Txn::Shared(t) => match bounded!(t.discharge(fail)) {
+                                    Some(Ok(())) => "ok".into(),
+                                    Some(Err(e)) => format!("err({})", fmt_cse(&e)),
+                                    None => "HANG".into(),
+                                },
+                                Txn::Owned(t) => match bounded!(t.discharge(fail)) {
+                                    Some(Ok(())) => "ok".into(),
+                                    Some(Err(e)) => format!("err({})", fmt_ode(&e)),
+                                    None => "HANG".into(),
+                                },
+                            }
+                        }
+                    }
+                }
                 "drop" => {
                     let k: usize = w[1].parse().unwrap();
                     match txns.get_mut(k).and_then(|t| t.take()) {
@@ -1895,13 +1918,14 @@ pub fn oracle_c(line: &str, trace: &str) -> Vec<String> {
         }
         let on_dead = match op[0] {
             "post" => dead_snd.iter().any(|d| Some(d.as_str()) == op.get(2).cloned()) || ctl_dead,
-            "decl" | "odecl" | "commit" | "rollback" | "drop" | "racc" | "rrej" | "rrel" => ctl_dead,
+            "decl" | "odecl" | "commit" | "rollback" | "drop" | "disch" | "racc" | "rrej" | "rrel" => ctl_dead,
             _ => false,
         };
         match op[0] {
             "post" if op.get(4).cloned() == Some("N") => dead_snd.push(op[2].to_string()),
             "decl" | "odecl" if op.get(1).cloned() == Some("N") => ctl_dead = true,
             "commit" | "rollback" if op.get(2).cloned() == Some("N") => ctl_dead = true,
+            "disch" if op.get(3).cloned() == Some("N") => ctl_dead = true,
             _ => {}
         }
         if on_dead {
@@ -1956,6 +1980,33 @@ pub fn oracle_c(line: &str, trace: &str) -> Vec<String> {
                     }
                 }
                 mirror("post", s, op[4], res, "ok(acc)", &mut v);
+            }
+            "disch" => {
+                let k: usize = op[1].parse().unwrap_or(0);
+                let id = match issued.get(k).cloned().flatten() {
+                    Some(id) => id,
+                    None => continue,
+                };
+                // a discharge the coordinator refuses leaves the transaction undischarged on the controller: the
+                // handle's later rollback / commit / drop must still go out
+                if !op[3].starts_with('R') {
+                    issued[k] = None;
+                }
+                match wt.iter().find(|t| t.contains(":disch(")) {
+                    None => v.push(format!("c18-discharge-not-sent: step {}: no discharge on the wire ({})", s, wire)),
+                    Some(t) => {
+                        let inner = inner_cond(t, "disch(").unwrap_or_default();
+                        let (wid, wfail) = inner.split_once(':').unwrap_or(("", ""));
+                        if wid != id {
+                            v.push(format!("c18-wrong-txn-id-on-wire: step {}: `{}` of transaction {} wrote {}", s, op.join(" "), id, t));
+                        }
+                        let fail_ok = if op[2] == "1" { wfail == "1" } else { wfail == "0" || wfail == "-" };
+                        if !fail_ok {
+                            v.push(format!("c18-wrong-fail-flag: step {}: `{}` of transaction {} wrote {} (fail={})", s, op.join(" "), id, t, wfail));
+                        }
+                    }
+                }
+                mirror("discharge", s, op[3], res, "ok", &mut v);
             }
             "commit" | "rollback" | "drop" => {
                 let k: usize = op[1].parse().unwrap_or(0);
@@ -2141,6 +2192,14 @@ pub fn gen_case_c(r: &mut Rng, thorough: bool) -> String {
                 if !open.is_empty() {
                     let p = r.below(open.len() as u64) as usize;
                     let k = open.remove(p);
+                    if r.below(5) == 0 {
+                        // refused first, then discharged again (or dropped) through the same handle
+                        ops.push(format!("disch {} {} R:{}", k, r.below(2), r.pick(&["Rollback", "Timeout", "UnknownId"])));
+                        if r.below(4) != 0 {
+                            open.push(k);
+                            continue;
+                        }
+                    }
                     match r.below(7) {
                         0 => ops.push(format!("drop {}", k)),
                         1..=3 => ops.push(format!("commit {} {}", k, disch_resp(r))),
